@@ -900,7 +900,7 @@ def run_sprites(prop: str, tier: str, seed: int, level: int, nq: int, nt: int, g
                 profiles=("release",), extra_cases: Optional[Callable] = None, include_corpus=True,
                 max_frames=None, max_layers=None, compose: bool = False) -> int:
     v = Verdict(prop, tier, seed, "proof")
-    ob = vplib.check_obligations(prop, expected=expected)
+    ob = vplib.check_obligations(prop, expected=expected, extra_files=["C02_e2e"] if prop == "C02" else ())
     vplib.build_harness(list(profiles))
     w = Work(prop)
     try:
